@@ -115,6 +115,24 @@ def check_props(prop):
 
 # --------------------------------------------------------------------- Go harness
 
+def rewrite_source(rel, subs):
+    """A copy of REPO/<rel> (the current working tree) with regex substitutions applied,
+    for injection through -overlay. Returns (path, counts)."""
+    import re as _re
+    src = open(os.path.join(REPO, rel), encoding="utf8").read()
+    counts = []
+    for pat, rep in subs:
+        src, n = _re.subn(pat, rep, src)
+        counts.append(n)
+    od = os.path.join(GEN, "overlay", "src")
+    os.makedirs(od, exist_ok=True)
+    path = os.path.join(od, rel.replace("/", "__"))
+    with open(path, "w", encoding="utf8") as f:
+        f.write("//line %s:1\n" % os.path.join(REPO, rel))
+        f.write(src)
+    return path, counts
+
+
 def overlay_for(files, helper_pkgs):
     """files: {repo-relative dest path: absolute source path}; helper_pkgs: {repo dir: package name}
     -> path of an overlay JSON. Nothing is written to the repository."""
